@@ -127,7 +127,11 @@ def has_safe_repr(value: t.Any) -> bool:
     if value is None or value is NotImplemented or value is Ellipsis:
         return True
 
-    if type(value) in {bool, int, float, complex, range, str, Markup}:
+    if type(value) is float:
+        # inf and nan have no literal; inside a container repr() would emit a bare name
+        return value == value and value not in (float("inf"), float("-inf"))
+
+    if type(value) in {bool, int, complex, range, str, Markup}:
         return True
 
     if type(value) in {tuple, list, set, frozenset}:
@@ -1784,7 +1788,11 @@ class CodeGenerator(NodeVisitor):
     def visit_Const(self, node: nodes.Const, frame: Frame) -> None:
         val = node.as_const(frame.eval_ctx)
         if isinstance(val, float):
-            self.write(str(val))
+            if val != val or val in (float("inf"), float("-inf")):
+                # repr() of a non-finite float is a bare name, not an expression
+                self.write(f"float({str(val)!r})")
+            else:
+                self.write(str(val))
         else:
             self.write(repr(val))
 
